@@ -145,6 +145,7 @@ fn arb_case(max_ops: usize) -> impl Strategy<Value = Case> {
                 flags: AgentFlags {
                     cascade_value: false,
                     cascade_map: cascade,
+                    ..Default::default()
                 },
                 programs,
                 ops,
